@@ -10,7 +10,7 @@ from pyvc.prop import BoundedResult, Prop, RunCtx
 from pyvc.types import BOOL, INT, REAL, STR, Atom, MapT, ObjT, Opt
 from pyvc.values import NONE, OK, Val, mk_fresh
 
-from .c18_store import mem_single_step, preempted_workflow_data, replay_read_fault
+from .c18_store import generators_pure, mem_single_step, preempted_generators, preempted_workflow_data, replay_read_fault
 from .common import Types, base_registry
 
 PID = "C18"
@@ -269,7 +269,7 @@ def build(ctx: RunCtx) -> Prop:
         pid=PID, title="sequence numbers 1,2,3.. per operation and executor; the executor a task body gets belongs to the workflow of the CURRENT invocation, "
                        "starts at position 0 for a new execution and is reused within one execution (cache invariant under a change of the current invocation)",
         level="other", technique="contract-based deductive verification of the position counter, of the executor cache invariant and of the SQLite record store glue under read/commit faults (AST->z3 VCs) + ownership scan of the in-memory record store + bounded line-level preemption of the in-memory store + bounded record-or-replay runs on both backends and through the real thread runner",
-        registry=reg, verify=verify, lemmas=[mem_single_step], replayers={"*SQLiteStateBackend.get_workflow_data*": replay_read_fault}, bounded=[replay_and_isolation, preempted_workflow_data],
+        registry=reg, verify=verify, lemmas=[mem_single_step, generators_pure], replayers={"*SQLiteStateBackend.get_workflow_data*": replay_read_fault}, bounded=[replay_and_isolation, preempted_workflow_data, preempted_generators],
         assumptions=["DeterministicExecutor(workflow, app) creates an executor of that workflow with empty counters (constructor read, not proved)",
                      "task.invocation is the invocation object of the current execution in the current thread (context module)",
                      "record-or-replay of _deterministic_operation / execute_task handles dynamically typed values and is covered by the bounded stand-in only"],
